@@ -167,7 +167,7 @@ fn pick_crop(rng: &mut Rng, sw: u32, sh: u32, dw: u32, dh: u32, edge: u64, inval
     }
     if c < 75 + edge {
         // sub-pixel and/or flush against an edge within a few ulps
-        let n = rng.range(1, 8);
+        let n = if rng.chance(1, 2) { 1 } else { rng.range(1, 8) };
         let (l, w) = match rng.below(5) {
             0 => {
                 let l = ulps_down(swf, n);
@@ -440,6 +440,15 @@ pub fn gen_resize(rng: &mut Rng, cfg: &ResizeCfg, classes: &mut Vec<String>, pt_
         pick_crop(rng, sw, sh, dw, dh, cfg.edge_weight, cfg.allow_invalid)
     };
     classes.push(format!("crop:{}", cclass));
+    let mut dst = dst;
+    if cclass == "edge-flush" && rng.chance(1, 3) {
+        // sample centres that round onto the image edge need very few output samples
+        if rng.chance(1, 2) {
+            dst.w = 1;
+        } else {
+            dst.h = 1;
+        }
+    }
     let alg = if wrap {
         *rng.pick(&[Alg::Conv(Filt::Bilinear), Alg::Conv(Filt::Box), Alg::Nearest, Alg::Interp(Filt::Bilinear)])
     } else {
